@@ -183,3 +183,38 @@ def scope_shapes(max_len=2):
             try: out.append(_renumber('\n'.join(lines) + '\n'))
             except OverflowError: pass
     return out
+
+
+# ------------------------------------------------------------------------------------------------- input / output (C08)
+IO_ATOMS = ['say "a"', 'say X', 'Listen to X', 'Listen']
+
+
+def io_shapes(max_len=2):
+    """X holds a string; <= max_len I/O statements, each bare / in a taken branch / in a 2-pass loop / in a function called
+    as a statement / in a function called inside an expression; finally X is printed"""
+    stmts = []
+    for k, a in enumerate(IO_ATOMS):
+        stmts.append(a)
+        stmts.append(f'If true\n{a}\n')
+        stmts.append(f'C is 0\nWhile C is less than 2\nBuild C up\n{a}\n')
+        stmts.append(('F', a, 'F taking 1'))
+        stmts.append(('G', a, 'say G taking 1'))
+    out = []
+    for n in range(1, max_len + 1):
+        for seq in itertools.product(range(len(stmts)), repeat=n):
+            defs, body = [], []
+            oc, ic = 1, 0                                  # calls on the output / input stream of a fault-free run with enough input
+            for j, si in enumerate(seq):
+                s = stmts[si]
+                a = IO_ATOMS[si // 5]; mult = 2 if si % 5 == 2 else 1
+                if a.startswith('say'): oc += mult
+                else: ic += mult
+                if si % 5 == 4: oc += 1                    # say G taking 1
+                if isinstance(s, tuple):
+                    name = f'{s[0]}{"abc"[j]}'
+                    defs += [f'{name} takes P', s[1], 'give back 1', '']
+                    body.append(s[2].replace(s[0] + ' taking', name + ' taking'))
+                else: body.append(s)
+            lines = ['X is "init"'] + defs + body + ['say X']
+            out.append(('\n'.join(lines) + '\n', {'out_calls': oc, 'in_calls': ic}))
+    return out
